@@ -36,38 +36,41 @@ theorem parse_order :
     parseOrder = ["cmdline", "env-map", "mark-cmdline-set", "skip-if-set", "env", "props"] := by decide
 
 /-- the environment-variable name is `ToUpper(prefix + Replace(name, ".", "_"))`, looked up in a map keyed by
-`ToUpper(entry name)`; an entry without `=` is guarded before `p[1]` (D20) -/
+`ToUpper(entry name)` (recognised by callee names and argument literals, not by variable names) -/
 theorem env_name_mangling : envNameUpperCased = true ∧ envNameDotsReplaced = true ∧ envKeyUpperCased = true := by decide
-theorem env_entry_guarded : envEntryWithoutEqGuarded = true := by decide
+/-- an environment entry without `=` is guarded before the second part of the split is read (D20) -/
+theorem env_entry_guarded :
+    ("@strings.SplitN[1]", "exit-if len(@strings.SplitN) != 2") ∈ indexGuards := by decide
 
 /-- the options the model treats as kvslice-valued are the ones the source hands to the kvslice parsers -/
 theorem kvslice_flags : kvsliceFlags = ["bgp.peers", "proxy.addr", "proxy.auth", "proxy.cs", "ui.addr"] := by decide
 
-/-- the enumerations `validate` checks -/
-theorem enum_validations : strategyValues = ["rr", "rnd"] ∧ matcherValues = ["prefix", "glob", "iprefix"]
+/-- the enumerations `validate` checks (sets of literals the option is compared with, sorted) -/
+theorem enum_validations : strategyValues = ["rnd", "rr"] ∧ matcherValues = ["glob", "iprefix", "prefix"]
     ∧ uiAccessValues = ["ro", "rw"] := by decide
 
-/-- `load` rejects a glob cache size below 1 (D21), and the cache is built from that field only -/
+/-- on `load`'s path there is an unconditional top-level `if <cfg>.GlobCacheSize <= 0 { return nil, err }`
+(or `< 1`, or the mirrored comparison) (D21), and the cache is built from that field only -/
 theorem glob_cache_size_validated :
-    (globCacheSizeRejectedWhen = "cfg.GlobCacheSize <= 0" ∨ globCacheSizeRejectedWhen = "cfg.GlobCacheSize < 1")
-    ∧ 0 < globCacheBuiltFromConfig := by decide
+    globCacheSizeBelowOneRejected = true ∧ 0 < globCacheBuiltFromConfig := by decide
 
-/-- **Every integer-indexed expression of `config/load.go` and `config/flagset.go` keeps its guard**: the
-dominating length check of each index site, as extracted from the source.  `kvs[0]` (the `ui.addr` listener,
-modelled by the checked `ui[0]?` in `validate`) is reached only after `len(kvs) != 1 ⇒ error`; `p[1]` of an
-environment entry only after `len(p) != 2 ⇒ continue` (D20).  `cmdline[0]` has no guard inside `load`: its
-caller `parse` builds `cmdline` from `args[:1]` after `len(args) < 1 ⇒ panic("missing exec name")`, i.e. `Load`
-requires the program name — a stated precondition.  Weakening or removing a guard changes this list. -/
+/-- **Every integer-indexed expression on the path of `Load` / `ParseFlags` keeps its guard**: the set of
+(index site, dominating length check) pairs of all functions reachable from `config.Load` and
+`FlagSet.ParseFlags`, with variables printed by role (`p<i>` i-th parameter, `r<i>` i-th named result,
+`@<callee>` local assigned from that call, `@i` loop counter), so that renaming, extracting or inlining code does
+not change it but weakening or dropping a guard does.
+`@parseKVSlice.0[0]` (the `ui.addr` listener `kvs[0]`, modelled by the checked `ui[0]?` in `validate`) is reached
+only after `len ≠ 1 ⇒ return`; `@strings.SplitN[1]` (environment entry, certificate header) only after
+`len ≠ 2 ⇒ continue/return`; `p0[@i+1]`, `p0[@i]`, `r1[0]` are `parse`'s accesses to `args` and `path`.
+`p0[0]` is `cmdline[0]` in `load`: no guard there — `Load` requires the program name (`parse` panics
+deliberately on an empty `args`), a stated precondition. -/
 theorem index_sites_guarded : indexGuards =
-    [("ParseFlags", "p[0]", "exit-if len(p) != 2"),
-     ("ParseFlags", "p[1]", "exit-if len(p) != 2"),
-     ("load", "cmdline[0]", "none"),
-     ("load", "kvs[0]", "exit-if len(kvs) != 1"),
-     ("parse", "args[i+1]", "exit-if i >= len(args)-1"),
-     ("parse", "args[i]", "loop-while i < len(args)"),
-     ("parse", "path[0]", "after-case path == \"\""),
-     ("parse", "path[0]", "after-case path == \"\""),
-     ("parseCertSource", "p[0]", "exit-if len(p) != 2"),
-     ("parseCertSource", "p[1]", "exit-if len(p) != 2")] := by decide
+    [("@parseKVSlice.0[0]", "exit-if len(@parseKVSlice.0) != 1"),
+     ("@strings.SplitN[0]", "exit-if len(@strings.SplitN) != 2"),
+     ("@strings.SplitN[1]", "exit-if len(@strings.SplitN) != 2"),
+     ("p0[0]", "none"),
+     ("p0[@i+1]", "exit-if @i >= len(p0)-1"),
+     ("p0[@i]", "loop-while @i < len(p0)"),
+     ("r1[0]", "after-case r1 == \"\"")] := by decide
 
 end Fabio.Props.C15Facts
